@@ -47,6 +47,10 @@ def scenario_line(scn):
 
 
 # ----------------------------------------------------------------------------- real CID
+LINE_NAMES = {"lf": "LF", "cr": "CR", "crlf": "CRLF", "any": "Any", "none": "None"}
+LINE_TEXT = {"lf": "\n", "cr": "\r", "crlf": "\r\n", "any": "\n", "none": ""}
+
+
 def cid_rows(scn):
     rows = [["D", "Format", {"delimited": "Delimited", "fixed": "Fixed", "excel": "Excel", "ods": "ODS"}[scn["format"]]]]
     if scn["header"]:
@@ -54,7 +58,7 @@ def cid_rows(scn):
     if scn.get("allowed") is not None:
         rows.append(["D", "Allowed characters", scn["allowed"]])
     if scn["format"] == "fixed":
-        rows.append(["D", "Line delimiter", "LF"])
+        rows.append(["D", "Line delimiter", LINE_NAMES[scn.get("line", "lf")]])
     for f in scn["fields"]:
         rows.append(["F", f["name"], "", "X" if f["empty"] else "", f["length"], f["type"], f["rule"]])
     for i, c in enumerate(scn["checks"]):
@@ -88,7 +92,7 @@ def container_text(scn, rows, fault):
             text += '"unterminated'
         return text
     if scn["format"] == "fixed":
-        text = "".join("".join(r) + "\n" for r in rows)
+        text = "".join("".join(r) + LINE_TEXT[scn.get("line", "lf")] for r in rows)
         if fault:
             text += "x"  # an incomplete record
         return text
